@@ -44,9 +44,11 @@ def cert_cn(commonname):
 class FakeCert:
     """stand-in for certs.Cert in the stubbed runs: identity equality, cn + altnames only; like the real dummy_cert
     it leaves a CN of 64 or more characters out of the subject"""
-    def __init__(self, cn, sans, generated=False):
+    def __init__(self, cn, sans, generated=False, organization=None, crl_url=None):
         self.cn = cert_cn(cn) if generated else cn
         self.altnames = x509.GeneralNames(sans) if generated else list(sans)
+        self.organization = organization
+        self.crl_distribution_points = [crl_url] if crl_url else []
 
 
 def wild_ok(key: str, name: str) -> bool:
@@ -74,15 +76,19 @@ class Check(PropertyCheck):
                   "dict_is_cache_and_registrations, and first_registered_name_wins (lookup order: CN forms, SAN forms in "
                   "request order, '*', only then the generated key). All by invariant induction over ALL operation histories; "
                   "STORE_CAP is re-read from the code on every run; the model is tied to the real CertStore by differential "
-                  "histories (stubbed dummy_cert and real signing) in which the model also predicts the subject CN and the "
-                  "SAN list of every generated certificate returned.")
+                  "histories (stubbed dummy_cert and real signing) in which the model also predicts the subject CN, the SAN "
+                  "list, the organization and the CRL distribution point of every generated certificate returned. New: "
+                  "organization and crl_url are part of the modelled request and certificate (Entry.org/crl, Op.get … org crl): "
+                  "generated_carries_org_of_generating_request (a fresh certificate carries this call's organization/crl_url, a "
+                  "cached one those of the get_cert of the history that generated it — they are not part of the key), and "
+                  "same_request_same_cert_while_cached now quantifies over the organization/crl_url of the repeated request.")
     level_note = ("trusted: Lean kernel; the model/implementation tie is differential (random + directed histories over a "
                   "13-name universe incl. the empty name and names of 64+ characters, >STORE_CAP distinct requests); dummy_cert is "
                   "a parameter of the model except for its subject rule (subjectCn: CN only if non-empty and < 64 characters) "
                   "and 'SANs = the requested list', which the model predicts and the tie compares on real-signing histories — "
-                  "not proved about the real dummy_cert; whether it raises on an empty CN is probed on every run; organization "
-                  "and crl_url are passed in the tie but are not part of the store's key and not stored in the model (the "
-                  "certificate's organization is not predicted); names are ASCII; add_cert is exercised with custom "
+                  "not proved about the real dummy_cert (likewise `organization` -> subject O and `if crl_url:` -> CRL distribution point, "
+                  "transcribed as Entry.org / certCrl and compared on every returned generated certificate); whether it raises on an "
+                  "empty CN is probed on every run; names are ASCII; add_cert is exercised with custom "
                   "(non-generated) entries only. Lenient branches of the oracle (each with a near-miss in known_selftest, run "
                   "from setup): (1) get_cert raising is excused only for real signing + empty CN + the probe saw dummy_cert "
                   "raise; (2) the subject may lack the CN only when the requested CN is empty or has 64+ characters (SANs are "
@@ -218,7 +224,7 @@ class Check(PropertyCheck):
 
         def stub(privkey, cacert, commonname, sans, organization=None, crl_url=None):
             gen_log.append((commonname, [san_view(s) for s in sans]))
-            return FakeCert(commonname, list(sans), generated=True)
+            return FakeCert(commonname, list(sans), generated=True, organization=organization, crl_url=crl_url)
 
         if real:
             customs = Check._real_custom
@@ -255,12 +261,10 @@ class Check(PropertyCheck):
                         r = {"r": kind, "id": n, "fresh": int(fresh)}
                         if kind == "g":
                             c = e.cert
-                            if real:
-                                r["cert_cn"] = c.cn
-                                r["cert_sans"] = [san_view(s) for s in c.altnames]
-                            else:
-                                r["cert_cn"] = c.cn
-                                r["cert_sans"] = [san_view(s) for s in c.altnames]
+                            r["cert_cn"] = c.cn
+                            r["cert_sans"] = [san_view(s) for s in c.altnames]
+                            r["cert_org"] = c.organization
+                            r["cert_crl"] = (c.crl_distribution_points or [None])[0]
                 r["qlen"] = len(cs.expire_queue)
                 r["ngen"] = sum(1 for k in cs.certs if isinstance(k, tuple))
                 r["ndist"] = len({id(v) for v in cs.certs.values() if label.get(id(v), ("g",))[0] == "g"})
@@ -389,7 +393,7 @@ class Check(PropertyCheck):
                 lines.append(f"add {op['cid']} {fld(cn)} {self._sans_field(sans)} {lst([hx(n.encode()) for n in op['names']])}")
             else:
                 gen_ok = 0 if (case["real"] and op["cn"] == "" and Check._empty_cn_raises) else 1
-                lines.append(f"get {gen_ok} {fld(op['cn'])} {self._sans_field(op['sans'])}")
+                lines.append(f"get {gen_ok} {fld(op['cn'])} {self._sans_field(op['sans'])} {fld(op.get('org'))} {fld(op.get('crl'))}")
         lines.append("dump")
         return lines
 
@@ -409,7 +413,7 @@ class Check(PropertyCheck):
             else:
                 line = f"{r['r']} {r['id']} {r['fresh']} {r['qlen']} {r['ngen']}"
                 if r["r"] == "g":     # what the returned certificate really carries; the model predicts it
-                    line += f" {fld(r['cert_cn'])} {self._sans_field(r['cert_sans'])}"
+                    line += f" {fld(r['cert_cn'])} {self._sans_field(r['cert_sans'])} {fld(r['cert_org'])} {fld(r['cert_crl'])}"
                 out.append(line)
         return {"ops": out, "dump": obs["dump"], "queue": "q:" + lst([str(i) for i in obs["queue"]])}
 
